@@ -15,6 +15,26 @@
 (*   RemapTemp    read(): temp.remap_indices(first)                         *)
 (*   Merge        read(): merge_from(temp) ... _lookups_fresh = 0           *)
 (*   Answer       lookup(): freshen the table when its bit is clear, answer *)
+(* Domain (what the property is claimed for):                              *)
+(*  - a SET of database files: every file is requested at most once        *)
+(*    (Request has the guard l \notin requested).  Requesting the same file *)
+(*    twice is outside the domain: the library keeps no record of loaded    *)
+(*    files, types collapse by true name but every function, wrapper,       *)
+(*    element of the second copy is added again (observed: `La.in La.in`    *)
+(*    gives 6 functions instead of 3).  The property speaks of a set.       *)
+(*  - fully defined beats forward, and a GLOBAL fully defined definition    *)
+(*    beats a non-global one.  When two files both define a class fully     *)
+(*    and globally, merge_with lets the later one win: library name and     *)
+(*    member lists of that class depend on the load order.  This is         *)
+(*    outside the claim: the reference (IdbDB: Winners / AllowedT) accepts  *)
+(*    any of the candidates, i.e. the projection ignores the attribution;   *)
+(*    everything else about such a class (one record per true name, global  *)
+(*    = union, every cross reference resolved to it, members of the losing  *)
+(*    definition kept as functions) is claimed and checked.                 *)
+(*  - a file may be empty, missing, or out of date with respect to the      *)
+(*    module def that requests it (bad[l]): such a load sets the error flag *)
+(*    and leaves the database untouched; the ranges of the other modules    *)
+(*    are not disturbed.                                                    *)
 (* The reference is UnionOKP of IdbDB: the projected database must be the   *)
 (* Union of the projections of the loaded libraries, for every interleaving *)
 (* and every order.                                                        *)
@@ -28,10 +48,14 @@ CONSTANTS Libs,         \* library names, e.g. {"A","B","C"}
           Modes,        \* subset of {"db","mod"}: request_database (range at load) / request_module (range at request)
           LookupKinds,  \* caches exercised by a query, subset of CacheKinds
           FileBase,     \* first index used inside a database file (files need not start at 1)
-          RecordHist    \* TRUE: carry the API history (for the replay dump)
+          RecordHist,   \* TRUE: carry the API history (for the replay dump)
+          Faults        \* what can be wrong with a file: subset of {"ok","missing","stale"}
 
 VARIABLES content,    \* content[l][n] \in Statuses : what library l says about type name n
           files,      \* files[l] : the database file of library l (maps only), fixed by `content`
+          bad,        \* bad[l] : "ok" | "missing" (no such file) | "stale" (the module def counts one index more
+                      \*          than the file has: "Module database file is out of date")
+          err,        \* the global error flag
           db,         \* the global database (InterrogateDatabase::_global_ptr)
           requests,   \* _requests: defs not yet loaded, [lib, first, next]
           modules,    \* _modules: defs that own an index range
@@ -46,7 +70,7 @@ VARIABLES content,    \* content[l][n] \in Statuses : what library l says about 
           ans,        \* answers of the last query: kind -> (name -> index)
           hist        \* API history (only when RecordHist)
 
-vars == <<content, files, db, requests, modules, pend, temp, pc, fresh, cache, loaded, ranges, requested, ans, hist>>
+vars == <<content, files, bad, err, db, requests, modules, pend, temp, pc, fresh, cache, loaded, ranges, requested, ans, hist>>
 
 NoDB == [none |-> TRUE]
 IsFd(st) == st \in {"def", "defg"}
@@ -156,6 +180,8 @@ Contents == {c \in [1..NT -> Statuses \cup Statuses2] : c[1] \in Statuses /\ \A 
 Init ==
   /\ content \in [Libs -> Contents]
   /\ files = [l \in Libs |-> GenFile(l, content[l])]
+  /\ bad \in [Libs -> Faults] /\ err = FALSE
+  /\ \A l \in Libs : bad[l] # "ok" => FileCount(files[l]) > 0
   /\ db = EmptyDB /\ requests = <<>> /\ modules = <<>> /\ pend = <<>> /\ temp = NoDB /\ pc = "idle"
   /\ fresh = {} /\ cache = [k \in CacheKinds |-> <<>>]
   /\ loaded = <<>> /\ ranges = [l \in Libs |-> <<0, 0>>] /\ requested = {}
@@ -168,16 +194,20 @@ Log(step) == hist' = IF RecordHist THEN Append(hist, step) ELSE hist
 (* range is taken now and the def enters _modules.                                                    *)
 Request(l, md) ==
   /\ pc = "idle" /\ l \notin requested
-  /\ LET n == IF md = "mod" THEN FileCount(files[l]) ELSE 0
+  /\ bad[l] = "stale" => md = "mod"          \* only a module def carries a count that can be out of date
+  /\ LET n == IF md = "mod" THEN FileCount(files[l]) + (IF bad[l] = "stale" THEN 1 ELSE 0) ELSE 0
+         \* a module def arrives with first_index = 1, next_index = 1 + n (as the generated code has it); with
+         \* n = 0 request_module leaves it alone, so an empty module is NOT a bare request: read() remaps it to 1
          def == IF n > 0 THEN [lib |-> l, first |-> db.next, next |-> db.next + n]
-                         ELSE [lib |-> l, first |-> 0, next |-> 0]
+                ELSE IF md = "mod" THEN [lib |-> l, first |-> 1, next |-> 1]
+                ELSE [lib |-> l, first |-> 0, next |-> 0]
      IN /\ db' = [db EXCEPT !.next = @ + n]
         /\ modules' = IF n > 0 THEN Append(modules, def) ELSE modules
         /\ requests' = Append(requests, def)
-        /\ Log([op |-> "R", lib |-> l, mode |-> md, n |-> FileCount(files[l]),
+        /\ Log([op |-> "R", lib |-> l, mode |-> md, n |-> n, bad |-> bad[l], err |-> err,
                 nreq |-> Len(requests) + 1, next |-> db.next + n])
   /\ requested' = requested \cup {l}
-  /\ UNCHANGED <<content, files, pend, temp, pc, fresh, cache, loaded, ranges, ans>>
+  /\ UNCHANGED <<content, files, bad, err, pend, temp, pc, fresh, cache, loaded, ranges, ans>>
 
 (* Any query: check_latest().  With pending requests load_latest() swaps them into copy_requests. *)
 Query ==
@@ -186,14 +216,22 @@ Query ==
   /\ IF requests = <<>>
        THEN pc' = "answer" /\ UNCHANGED <<pend, requests>>
        ELSE pc' = "load" /\ pend' = requests /\ requests' = <<>>
-  /\ UNCHANGED <<content, files, db, modules, temp, fresh, cache, loaded, ranges, requested, ans, hist>>
+  /\ UNCHANGED <<content, files, bad, err, db, modules, temp, fresh, cache, loaded, ranges, requested, ans, hist>>
+
+(* load_latest(): the file cannot be found or opened: set_error_flag(true), next request *)
+LoadMissing ==
+  /\ pc = "load" /\ pend # <<>> /\ bad[Head(pend).lib] = "missing"
+  /\ err' = TRUE
+  /\ pend' = Tail(pend)
+  /\ pc' = IF Tail(pend) = <<>> THEN "answer" ELSE "load"
+  /\ UNCHANGED <<content, files, bad, db, requests, modules, temp, fresh, cache, loaded, ranges, requested, ans, hist>>
 
 (* read(): InterrogateDatabase temp; temp.read_new(in, def) *)
 ReadNew ==
-  /\ pc = "load" /\ pend # <<>>
+  /\ pc = "load" /\ pend # <<>> /\ bad[Head(pend).lib] # "missing"
   /\ temp' = ReadNewDB(files[Head(pend).lib])
   /\ pc' = "remap"
-  /\ UNCHANGED <<content, files, db, requests, modules, pend, fresh, cache, loaded, ranges, requested, ans, hist>>
+  /\ UNCHANGED <<content, files, bad, err, db, requests, modules, pend, fresh, cache, loaded, ranges, requested, ans, hist>>
 
 (* read(): remap into the module's range (or to _next_index for a bare database request) *)
 RemapTemp ==
@@ -202,12 +240,19 @@ RemapTemp ==
          bare == def.first = 0 /\ def.next = 0
          first == IF bare THEN db.next ELSE def.first
          t2 == RemapDB(temp, first)
-     IN /\ temp' = t2
-        /\ db' = IF bare THEN [db EXCEPT !.next = t2.next] ELSE db
-        /\ ranges' = [ranges EXCEPT ![def.lib] = <<first, t2.next>>]
-        /\ Assert(bare \/ t2.next = def.next, "module database file is out of date")
-  /\ pc' = "merge"
-  /\ UNCHANGED <<content, files, requests, modules, pend, fresh, cache, loaded, requested, ans, hist>>
+     IN IF bare \/ t2.next = def.next
+          THEN /\ temp' = t2
+               /\ db' = IF bare THEN [db EXCEPT !.next = t2.next] ELSE db
+               /\ ranges' = [ranges EXCEPT ![def.lib] = <<first, t2.next>>]
+               /\ pc' = "merge"
+               /\ UNCHANGED <<err, pend>>
+          ELSE \* "Module database file ... is out of date": read() returns false before merge_from;
+               \* load_latest sets the error flag; the temporary database is dropped
+               /\ temp' = NoDB /\ err' = TRUE
+               /\ pend' = Tail(pend)
+               /\ pc' = IF Tail(pend) = <<>> THEN "answer" ELSE "load"
+               /\ UNCHANGED <<db, ranges>>
+  /\ UNCHANGED <<content, files, bad, requests, modules, fresh, cache, loaded, requested, ans, hist>>
 
 (* read(): merge_from(temp); the last statement of merge_from is _lookups_fresh = 0 *)
 Merge ==
@@ -218,7 +263,7 @@ Merge ==
   /\ loaded' = Append(loaded, Head(pend).lib)
   /\ pend' = Tail(pend)
   /\ pc' = IF Tail(pend) = <<>> THEN "answer" ELSE "load"
-  /\ UNCHANGED <<content, files, requests, modules, cache, ranges, requested, ans, hist>>
+  /\ UNCHANGED <<content, files, bad, err, requests, modules, cache, ranges, requested, ans, hist>>
 
 (* The query itself.  One query looks every name of the universe up in every cache of LookupKinds   *)
 (* (lookup(): freshen the table iff its bit is clear) and enumerates the database.                  *)
@@ -240,12 +285,12 @@ Answer ==
      IN /\ cache' = newcache
         /\ fresh' = fresh \cup LookupKinds
         /\ ans' = a
-        /\ Log([op |-> "Q", loaded |-> loaded, lk |-> a, next |-> db.next,
+        /\ Log([op |-> "Q", loaded |-> loaded, lk |-> a, next |-> db.next, err |-> err,
                 mods |-> [k \in DOMAIN modules |-> <<modules[k].first, modules[k].next>>]])
   /\ pc' = "idle"
-  /\ UNCHANGED <<content, files, db, requests, modules, pend, temp, loaded, ranges, requested>>
+  /\ UNCHANGED <<content, files, bad, err, db, requests, modules, pend, temp, loaded, ranges, requested>>
 
-Next == (\E l \in Libs, md \in Modes : Request(l, md)) \/ Query \/ ReadNew \/ RemapTemp \/ Merge \/ Answer
+Next == (\E l \in Libs, md \in Modes : Request(l, md)) \/ Query \/ LoadMissing \/ ReadNew \/ RemapTemp \/ Merge \/ Answer
 
 Spec == Init /\ [][Next]_vars
 
@@ -292,7 +337,7 @@ CacheCoherent == \A k \in fresh : cache[k] = TableOf(db, k)
 \* C13: an answered lookup reflects all files requested before the query, including later requests
 LookupSeesAll ==
   (pc = "idle" /\ ans # <<>> /\ requests = <<>>) =>
-     /\ L = requested
+     /\ L = {l \in requested : bad[l] = "ok"}
      /\ LET P == Project(db) IN
         \A k \in DOMAIN ans : \A x \in DOMAIN ans[k] :
           LET want == CASE k = "ttn" -> {r.tn : r \in {q \in P.T : q.tn = x}}
@@ -302,6 +347,9 @@ LookupSeesAll ==
                         [] k = "en" -> {EKey(db, i) : i \in {j \in DOMAIN db.e : db.e[j].n = x}}
                         [] k = "esn" -> {r.lib \o "|" \o r.sn : r \in {q \in P.E : q.sn = x}}
           IN IF want = {} THEN ans[k][x] = "" ELSE ans[k][x] \in want
+\* a failed load is reported by the error flag, and only then; it leaves nothing behind
+ErrIffFault == (pc = "idle" /\ requests = <<>>) => (err <=> \E l \in requested : bad[l] # "ok")
+FailedNotLoaded == \A l \in L : bad[l] = "ok"
 Lazy == requests # <<>> /\ pc = "idle" => \A k \in DOMAIN requests : requests[k].lib \notin L
 
 FilesWellFormed ==   \* sanity of the generator: every file is a closed single-library database
